@@ -8,14 +8,14 @@ from mbt import pool, tlc
 from mbt.bind import lifecycle as LB
 from mbt.framework import Machinery
 
-INV = ['AllOrNothing', 'ExitComplete', 'PipeBounds']
+INV = ['AllOrNothing', 'ExitComplete', 'PipeBounds', 'LedgerEmptyAfterExit', 'LedgerSane']
 
 
 def lc_cfg(nwk, p, rs, invariants=(), properties=(), cleanup=True, through=True, outlives=True, spec='Spec',
-           deadlock=True, cycles=2):
+           deadlock=True, cycles=2, clear=True):
     return tlc.cfg_text(spec=spec, constants=dict(NWk=nwk, P=p, RS=rs, MaxAbandoned=p + 2, Cycles=cycles,
                                                   CleanupOnFailedStart=cleanup, StopThroughBuffer=through,
-                                                  GatherOutlivesWorkers=outlives),
+                                                  GatherOutlivesWorkers=outlives, ClearLedgerAtExit=clear),
                         invariants=invariants, properties=properties, deadlock=deadlock)
 
 
@@ -50,6 +50,11 @@ def c11(ck, replay=None):
                  lc_cfg(1, 1, 1, [], through=False), 'deadlock')
     ck.sensitive('gather thread leaves at the first sentinel (D11b, open finding)', 'ServerLifecycle',
                  lc_cfg(2, 1, 2, [], outlives=False), 'deadlock')
+    ck.sensitive('ledger entries of results dropped at shutdown survive exit and re-entry (D24)', 'ServerLifecycle',
+                 lc_cfg(2, 2, 1, ['LedgerEmptyAfterExit'], outlives=False, clear=False, deadlock=False), 'invariant',
+                 'LedgerEmptyAfterExit')
+    ck.trap('a result is dropped behind the first sentinel without any hang (what D24 is about)', 'ServerLifecycle',
+            lc_cfg(2, 2, 1, ['Trap_ResultDroppedAtExit'], outlives=False, deadlock=False))
     # conformance on real processes
     rnd = random.Random(ck.seed * 1000003 + 73)
     scs = LB.gen_scenarios(rnd, 72 if thorough else 20)
@@ -58,7 +63,10 @@ def c11(ck, replay=None):
             {'nwk': 2, 'fail_at': 2, 'ab': 0, 'in_big': False, 'res_big': False, 'seq': True},
             {'nwk': 1, 'fail_at': 0, 'ab': 40, 'in_big': True, 'res_big': False, 'seq': False},
             {'nwk': 2, 'fail_at': 0, 'ab': 40, 'in_big': True, 'res_big': False, 'seq': False},
-            {'nwk': 2, 'fail_at': 0, 'ab': 40, 'in_big': False, 'res_big': True, 'seq': False}]
+            {'nwk': 2, 'fail_at': 0, 'ab': 40, 'in_big': False, 'res_big': True, 'seq': False},
+            # sequential tree, one worker per stage, abandoned work whose INTER-STAGE data exceeds the pipe
+            {'nwk': 1, 'fail_at': 0, 'ab': 40, 'in_big': False, 'res_big': True, 'seq': True},
+            {'nwk': 1, 'fail_at': 0, 'ab': 40, 'in_big': True, 'res_big': False, 'seq': True}]
     items = [{'id': n + 1, 'sc': sc} for n, sc in enumerate(scs)]
     if not thorough:
         # quick tier: one instance of the open finding (D11b) is enough - each costs a 30 s bound plus re-runs
@@ -97,10 +105,39 @@ def c11(ck, replay=None):
                        [(tlc.cfg_text(spec='TraceSpec',
                                       constants=dict(NWk=nwk, P=LB.P_UNITS, RS=rs, MaxAbandoned=LB.P_UNITS + 2, Cycles=2,
                                                      CleanupOnFailedStart=True, StopThroughBuffer=True,
-                                                     GatherOutlivesWorkers=False),
+                                                     GatherOutlivesWorkers=False, ClearLedgerAtExit=True),
                                       constraint='Progress', postcondition='Report', deadlock=False), trs)
                         for (nwk, rs), trs in sorted(groups.items())],
                        sig_of=lambda t, v: {'nwk': t['sc']['nwk'], 'fail_at': t['sc']['fail_at']})
+    # thread servlet trees under detsched: a worker at ANY position of a compound tree fails in __init__; workloads with
+    # failing / timed-out / abandoned requests; exit; re-entry - all schedule-controlled
+    from mbt.bind import lifecycle_threads as LT
+    tscs = LT.gen_scenarios(rnd, 120 if thorough else 30)
+    titems, n = [], 0
+    for sc in tscs:
+        if sc['total'] > 4:
+            continue
+        for j in range(4 if thorough else 2):
+            n += 1
+            titems.append({'id': n, 'sc': sc, 'seed': rnd.randrange(1 << 30), 'strategy': ['random', 'pct'][j % 2]})
+    tout = ck.run_binder('lifecycle_threads', titems, timeout=1200)
+    ck.evaluations += int(tout.get('n_exec', 0))
+    for h in tout.get('hangs', []):
+        ck.violation({'leg': 'L3', 'kind': 'hang-or-crash', 'where': 'thread servlet tree', 'status': h['status'],
+                      'detail': h.get('detail'), 'waitmap': h.get('waitmap'), 'exc': h.get('exc'),
+                      'item': {'sc': h['sc'], 'seed': h['seed'], 'strategy': h['strategy']}, 'events': h.get('full')},
+                     sig={'leg': 'L3', 'kind': 'hang', 'where': 'threads', 'status': h['status'], 'topo': h['sc']['topo']})
+    tg = collections.defaultdict(list)
+    for t in tout.get('traces', []):
+        tg[t['p']['nwk']].append(t)
+    ck.validate_groups('thread servlet trees: failing worker at any position, enter / workload / exit x 2 cycles (detsched)',
+                       'ServerLifecycleTrace',
+                       [(tlc.cfg_text(spec='TraceSpec',
+                                      constants=dict(NWk=nwk, P=2, RS=1, MaxAbandoned=4, Cycles=2, CleanupOnFailedStart=True,
+                                                     StopThroughBuffer=True, GatherOutlivesWorkers=False, ClearLedgerAtExit=True),
+                                      constraint='Progress', postcondition='Report', deadlock=False), trs)
+                        for nwk, trs in sorted(tg.items())],
+                       sig_of=lambda t, v: {'where': 'threads', 'topo': t['sc']['topo'], 'fail_at': t['sc']['fail_at']})
     ck.assumptions += ['real processes and OS pipes: schedules are whatever the OS produces; sizes are scaled below / beyond the '
                        '64 KiB pipe; an exit that does not return within 30 s, and again in at least one of two re-runs in fresh processes, is a hang']
     ck.finish_rc = ck.finish(rule='worker count x failing worker position x abandoned inputs (0 / few / beyond the pipe) x result '
